@@ -1,8 +1,17 @@
 """Run every translator against /repo's working tree (the repo is installed editable in /venv,
-so importing soupsieve reads /repo/soupsieve)."""
+so importing soupsieve reads /repo/soupsieve).
+
+A translator is a deterministic function of the source files it reads; its run is skipped when
+the SHA-256 of every input (all of /repo/soupsieve/*.py, the installed bs4 sources, the
+translator scripts themselves) is unchanged since the run that produced the existing output.
+"""
+import glob
+import hashlib
 import importlib
+import json
 import os
 import sys
+import time
 
 HERE = os.path.dirname(os.path.abspath(__file__))
 sys.path.insert(0, HERE)
@@ -20,21 +29,55 @@ GENERATORS = [
 ]
 
 
+def input_digest():
+    h = hashlib.sha256()
+    files = sorted(glob.glob('/repo/soupsieve/*.py')) + sorted(glob.glob(os.path.join(HERE, '*.py')))
+    try:
+        import bs4
+        files += sorted(glob.glob(os.path.join(os.path.dirname(bs4.__file__), '**', '*.py'), recursive=True))
+    except Exception:
+        pass
+    for f in files:
+        h.update(f.encode())
+        with open(f, 'rb') as fh:
+            h.update(fh.read())
+    h.update(sys.version.encode())
+    return h.hexdigest()
+
+
 def main():
     os.makedirs(DEST, exist_ok=True)
+    stamp_path = os.path.join(DEST, '.stamp.json')
+    try:
+        stamps = json.load(open(stamp_path))
+    except Exception:
+        stamps = {}
+    digest = input_digest()
     failed = False
     for mod, out in GENERATORS:
         if not os.path.exists(os.path.join(HERE, mod + '.py')):
             continue
+        dest = os.path.join(DEST, out)
+        if os.path.exists(dest):
+            out_digest = hashlib.sha256(open(dest, 'rb').read()).hexdigest()
+            st = stamps.get(mod)
+            if st and st.get('inputs') == digest and st.get('output') == out_digest:
+                print(f'{mod}: unchanged inputs, output kept ({st.get("info")})')
+                continue
+        t0 = time.time()
         try:
             m = importlib.import_module(mod)
-            info = m.main(os.path.join(DEST, out))
-            print(f'{mod}: ok {info}')
+            info = m.main(dest)
+            print(f'{mod}: ok {info} [{time.time() - t0:.1f}s]')
+            stamps[mod] = {'inputs': digest, 'output': hashlib.sha256(open(dest, 'rb').read()).hexdigest(), 'info': repr(info)}
         except Exception as e:  # fail closed
             import traceback
             traceback.print_exc()
             print(f'{mod}: FAILED {e!r}')
+            stamps.pop(mod, None)
             failed = True
+    with open(stamp_path, 'w') as f:
+        json.dump(stamps, f, indent=1)
     return 1 if failed else 0
 
 
